@@ -144,6 +144,21 @@ func init() {
 		"vBool":    extVBool,
 		"vBytes":   extVBytes,
 		"vString":  extVString,
+		"vChoose": func(fr *frame, args []value) value {
+			i := fr.i
+			name := goStr(i, args[0])
+			k := int(i.asIntC(args[1]))
+			if k <= 0 {
+				panic(pathEnd{"unsupported", "vChoose with k <= 0"})
+			}
+			t := i.ps.newVar(name, 64)
+			i.ps.res.Bounds[name] = [2]int64{0, int64(k - 1)}
+			if k == 1 {
+				i.ps.solver.Assert(i.ts.Cmp("=", t, i.ts.Const(64, 0)))
+				return 0
+			}
+			return int(i.ps.chooseFresh(t, k))
+		},
 		"vConcrete": func(fr *frame, args []value) value {
 			return int(fr.i.asIntC(args[0]))
 		},
